@@ -51,13 +51,23 @@ Definition last_line (us : list unit) : text :=
 (** display width with tab stops *)
 Definition width_step (tw : nat) (c0 : nat) (c : chr) : nat :=
   match c with Tab => c0 + (tw - c0 mod tw) | _ => c0 + cwidth c end.
-Definition width (tw : nat) (l : text) : nat := fold_left (width_step tw) l 0.
+Definition width_from (tw : nat) (c0 : nat) (l : text) : nat := fold_left (width_step tw) l c0.
+Definition width (tw : nat) (l : text) : nat := width_from tw 0 l.
 
 Definition canon_u (m : metrics) (us : list unit) : pos :=
   mkpos (ubytes m us) (breaks us) (width (tabw m) (last_line us)).
 
 (** The k-th canonical position of a unit list. *)
 Definition P (m : metrics) (us : list unit) (k : nat) : pos := canon_u m (firstn k us).
+
+(** Measurement continued from a start position [p0] (a text that is a window onto a larger
+    document starts at the window's position): bytes and lines add up; on the first line the
+    column continues from the start column. [canon_u] is the case [p0 = pos_zero]. *)
+Definition canon_from (m : metrics) (p0 : pos) (us : list unit) : pos :=
+  mkpos (byte p0 + ubytes m us) (line p0 + breaks us)
+        (width_from (tabw m) (if breaks us =? 0 then col p0 else 0) (last_line us)).
+Definition Pf (m : metrics) (p0 : pos) (us : list unit) (k : nat) : pos :=
+  canon_from m p0 (firstn k us).
 
 (** Text-level view. *)
 Definition Canon (m : metrics) (t : text) (p : pos) : Prop :=
